@@ -40,9 +40,23 @@ def r1_parser(L, repo):
     for cls in ("TxMsg", "RxMsg"):
         ci = repo.need_class("data_msg", cls)
         L.fn(F, cls + ".parse_msg")
+        c0, init0 = repo.find_method(ci, "__init__")
+        dflt = None
+        if init0 is not None:
+            ps0 = [a.arg for a in init0.args.args]
+            if "ver" in ps0:
+                i = ps0.index("ver") - (len(ps0) - len(init0.args.defaults))
+                if 0 <= i < len(init0.args.defaults):
+                    dflt = fold(repo, ci.mod, init0.args.defaults[i])
+        if dflt is None:
+            raise AnalysisError("default header version of %s does not fold" % cls)
         for v in range(0, 16):
-            lc = LenCheck(repo, ci, {"self.ver": v})
+            lc = LenCheck(repo, ci, {"self.ver": v}, initial={"self.ver": dflt})
             acc = lc.run("parse_msg")
+            for node, ecls, qn in lc.raises:
+                if ecls != "ValueError":
+                    L.ob("C14.R1", F, qn, "%s, version %d: `%s` signals only ValueError" % (cls, v, canon(node)[:50]),
+                         "ValueError", ecls, False, node.lineno)
             for a in acc:
                 n_acc += 1
                 L.ob("C14.R1", F, a.func, "%s, version %d: %s is inside the length proven by the guards" % (cls, v, a.what),
